@@ -43,11 +43,22 @@ var Reader io.Reader = &Stream{FailAt: -1}
 // ByteAt is the stream content at offset i (SHA-256 in counter mode: windows
 // of 16+ bytes are unique for all practical purposes).
 func ByteAt(i int) byte {
-	var blk [8]byte
-	binary.BigEndian.PutUint64(blk[:], uint64(i/32))
-	h := sha256.Sum256(blk[:])
-	return h[i%32]
+	blkMu.Lock()
+	defer blkMu.Unlock()
+	if i/32 != blkNo {
+		var blk [8]byte
+		binary.BigEndian.PutUint64(blk[:], uint64(i/32))
+		blkVal = sha256.Sum256(blk[:])
+		blkNo = i / 32
+	}
+	return blkVal[i%32]
 }
+
+var (
+	blkMu  sync.Mutex
+	blkNo  = -1
+	blkVal [32]byte
+)
 
 func (s *Stream) Read(p []byte) (int, error) {
 	s.mu.Lock()
